@@ -2,10 +2,14 @@
    option, unit, list, prod, sumbool, sumor map to the OCaml types; N, Z,
    positive, nat stay the extracted inductives. No Extract Constant. *)
 From Coq Require Import Extraction ExtrOcamlBasic.
-Require Import Base Value PrintOptions Printer Sink Float.
+Require Import Base Value PrintOptions Printer Sink Float NumberOps.
 
 Extraction "model.ml"
   s2b beq_bytes value_eqb build vlist
   f64_of_bits bits_of_f64
   default_po elisp_po all_po
-  trace0 trace_custom print0 print_custom flatten run_sink.
+  trace0 trace_custom print0 print_custom flatten run_sink
+  N.add N.mul N.sub N.div N.modulo N.eqb N.leb N.ltb N.of_nat N.to_nat Z.of_N Z.to_N
+  f64_of_Z f64_of_N f64_mul f64_div f64_neg pow10_f64 is_finite_f64
+  kind_predicates as_str as_symbol as_keyword as_name as_bytes as_bool as_char as_i64 as_u64 as_f64
+  is_i64 is_u64 is_f64 value_from_prim value_eq_prim prim_eq_value f32_of_bits num_from_f64.
